@@ -131,6 +131,12 @@ def obsOfModel (s : St) : Op → Obs
   | .ready => .ready ⟨(ready false s).code, (ready false s).checks⟩
   | .health => .health ⟨(health false s).code, (health false s).message, (health false s).checks⟩
   | .names => .names s.readyNames
+  -- the requests issued while `err.Error()` is being rendered see the logger untouched
+  -- (in the code's order nothing has been stored yet); the one after sees both stores
+  | .finishRace k m n =>
+    let s' := (s.apply (.finishRace k m n)).getD s
+    .race (List.replicate n ⟨(ready false s).code, (ready false s).checks⟩)
+      ⟨(ready false s').code, (ready false s').checks⟩
   | _ => .other
 
 /-- the model run on a sequence of ops -/
@@ -238,6 +244,30 @@ theorem set_self {α} (l : List α) (i : Nat) (x : α) (h : l[i]? = some x) : l.
   · next hij => subst hij; split <;> simp_all
   · rfl
 
+theorem namesOK_startupApply (s s' : St) (k : Nat) (ev : StartupEv) (hn : namesOK s)
+    (h : s.startupApply k ev = some s') : namesOK s' := by
+  obtain ⟨hn1, hn2⟩ := hn
+  unfold namesOK readyN at *
+  unfold St.startupApply at h
+  cases hk : s.startups[k]? with
+  | none => simp [hk] at h
+  | some u =>
+    simp only [hk, Option.some.injEq] at h
+    subst h
+    have hu : u ∈ s.startups := List.mem_of_getElem? hk
+    have hidx := hn2 u hu
+    obtain ⟨ha1, ha2⟩ := Startup.apply_name u ev
+    have hset : (s.ready.set u.readyIdx ⟨Kind.startup, (u.apply ev).readyRes⟩).map (·.res.name)
+        = s.ready.map (·.res.name) := by
+      rw [List.map_set, Startup.readyRes_name, ha1]
+      exact set_self _ _ _ hidx
+    simp only
+    refine ⟨by rw [hn1, hset], fun v hv => ?_⟩
+    rw [hset]
+    rcases List.mem_or_eq_of_mem_set hv with hv | rfl
+    · exact hn2 v hv
+    · rw [ha1, ha2]; exact hidx
+
 theorem namesOK_apply (s s' : St) (op : Op) (hn : namesOK s) (h : s.apply op = some s') : namesOK s' := by
   obtain ⟨hn1, hn2⟩ := hn
   unfold namesOK readyN at *
@@ -276,25 +306,8 @@ theorem namesOK_apply (s s' : St) (op : Op) (hn : namesOK s) (h : s.apply op = s
     rcases hu with hu | rfl
     · exact getElem?_append_some _ _ _ _ (hn2 u hu)
     · simp [Startup.readyRes_name]
-  case startupEv k ev =>
-    cases hk : s.startups[k]? with
-    | none => simp [hk] at h
-    | some u =>
-      simp only [hk, Option.some.injEq] at h
-      subst h
-      have hu : u ∈ s.startups := List.mem_of_getElem? hk
-      have hidx := hn2 u hu
-      obtain ⟨ha1, ha2⟩ := Startup.apply_name u ev
-      have hset : (s.ready.set u.readyIdx ⟨Kind.startup, (u.apply ev).readyRes⟩).map (·.res.name)
-          = s.ready.map (·.res.name) := by
-        rw [List.map_set, Startup.readyRes_name, ha1]
-        exact set_self _ _ _ hidx
-      simp only
-      refine ⟨by rw [hn1, hset], fun v hv => ?_⟩
-      rw [hset]
-      rcases List.mem_or_eq_of_mem_set hv with hv | rfl
-      · exact hn2 v hv
-      · rw [ha1, ha2]; exact hidx
+  case startupEv k ev => exact namesOK_startupApply s s' k ev ⟨hn1, hn2⟩ h
+  case finishRace k m n => exact namesOK_startupApply s s' k _ ⟨hn1, hn2⟩ h
   all_goals (subst h; exact ⟨hn1, hn2⟩)
 
 /-- **C33 (sequential)** — the run-time statement checker accepts what the model
@@ -309,6 +322,11 @@ theorem C33_holdsOn (s : St) (ops : List Op) (hn : namesOK s) : holdsOn s (trace
       case ready => exact readyOK_model s
       case health => exact healthOK_model s
       case names => simp only [answers, List.map_map, beq_iff_eq]; exact hn.1
+      case finishRace k m n =>
+        simp only [Bool.and_eq_true, List.all_eq_true, Bool.or_eq_true]
+        refine ⟨fun o ho => ?_, readyOK_model _⟩
+        rw [List.eq_of_mem_replicate ho]
+        exact Or.inl (readyOK_model s)
     · apply ih
       cases h : s.apply op with
       | none => simpa using hn
@@ -332,6 +350,38 @@ theorem repaired_code_reports_failure :
     (health false maskedSt).code = 503 ∧ (health false maskedSt).message = "down" ∧
     (ready false maskedSt).code = 503 := by
   decide
+
+/-- a startup logger whose ReadyChecker does not pass -/
+def notReady (u : Startup) : Prop := u.readyRes.status = fail
+
+/-- **Finish(err) never lets the gate pass** — `Finish(err)` is two atomic stores, the
+    failure message first and `done` second (the order the code has).  For a logger that
+    is not ready, the ReadyChecker fails before the call, *between the two stores*, and
+    after the call: no interleaving of a /ready evaluation with `Finish(err)` can report
+    the startup gate as passing. -/
+theorem C33_finish_err_never_passes (u : Startup) (m : String) (h : notReady u) :
+    (u.finishMsg m).readyRes.status = fail ∧ ((u.finishMsg m).finishDone).readyRes.status = fail := by
+  unfold notReady at h
+  unfold Startup.readyRes at h ⊢
+  simp only [Startup.finishMsg, Startup.finishDone]
+  constructor
+  · by_cases hd : u.done = true
+    · simp [hd]
+    · by_cases ht : u.total = 0 <;> simp [hd, ht]
+  · simp
+
+/-- … whereas with the stores in the other order (`done` first, the seeded change
+    /verif/seeded/C33-a) the state between them is `done` without a failure message and the
+    ReadyChecker of a logger that was never ready passes: the witness. -/
+theorem finish_done_first_passes :
+    ∃ u : Startup, notReady u ∧ u.finishDone.readyRes.status = pass :=
+  ⟨{ name := "shards", readyIdx := 0, healthIdx := 0 }, by unfold notReady; decide, by decide⟩
+
+/-- at the level of the endpoint: while `Finish(err)` is in flight on a logger that is not
+    ready — at either intermediate point — and afterwards, /ready answers 503 -/
+theorem C33_ready_503_during_finish_err (s : St) (c : Cell) (hc : c ∈ s.ready)
+    (hs : c.res.status = fail) : (ready false s).code = 503 :=
+  (C33_ready_503 s ⟨c, hc, hs⟩).1
 
 /-- **C33 (sequential), from a fresh handler** — no hypothesis left. -/
 theorem C33_holdsOn_fresh (ops : List Op) : holdsOn {} (trace {} ops) = true :=
